@@ -206,6 +206,15 @@ private:
                     this->_mask.red.shift   = detail::trailing_zeros( this->_mask.red.mask   );
                     this->_mask.green.shift = detail::trailing_zeros( this->_mask.green.mask );
                     this->_mask.blue.shift  = detail::trailing_zeros( this->_mask.blue.mask  );
+
+                    // the channels are decoded into 8 bits: each mask has to select 1 to 8 bits
+                    if(  this->_mask.red.width   == 0 || this->_mask.red.width   > 8
+                      || this->_mask.green.width == 0 || this->_mask.green.width > 8
+                      || this->_mask.blue.width  == 0 || this->_mask.blue.width  > 8
+                      )
+                    {
+                        io_error( "Unsupported BMP color masks." );
+                    }
                 }
                 else if( this->_info._compression == bmp_compression::_rgb )
                 {
